@@ -1,7 +1,8 @@
 (* C14 -- hint files: faithful round-trip, total lookup, correct merge.
-   Property theorems only; proofs live in proofs/HintProofs.v (round trip) and proofs/HintLookup.v (lookup). *)
+   Property theorems only; proofs live in proofs/HintProofs.v (round trip), proofs/HintLookup.v (lookup)
+   and proofs/HintMerge.v (merge). *)
 From Coq Require Import NArith ZArith List Bool String.
-From GB Require Import Consts Words HintFile HintProofs HintLookup.
+From GB Require Import Consts Words HintFile HintProofs HintLookup HintMerge.
 Import ListNotations.
 Open Scope N_scope.
 
@@ -42,6 +43,38 @@ Theorem C14_index_roundtrip : forall items interval ds,
   load_index (hint_write items interval ds) = Some (mkHM (16 + items_size items) (w32 (lenN items)) ds, hint_index_of items interval).
 Proof. exact load_index_write. Qed.
 Print Assumptions C14_index_roundtrip.
+
+(* CORRECT MERGE (hintmerge.go: k-way merge by (hash, key, position) over min-heads, mergeWriter grouping by hash and
+   keeping the last of consecutive equal keys, collision table updated for every group of >= 2 keys), for ANY number
+   of source files, each sorted in merge order after tagging its items with the file's chunk id:
+     shk a b := same hash and same key;  pos_key := chunk * 2^32 + offset;  all := every tagged item of every source.
+   (1) every merged item is a source item and has the GREATEST position among all source items of its (hash, key);
+       every (hash, key) present in a source is present in the result; the result is in merge order. *)
+Theorem C14_merge_keeps_greatest_position : forall srcs ct,
+  Forall sortedL (tagged srcs) ->
+  let merged := fst (fst (hint_merge srcs ct)) in let all := List.concat (tagged srcs) in
+  (forall it, In it merged -> In it all /\ forall y, In y all -> shk y it -> pos_key y <= pos_key it) /\
+  (forall y, In y all -> exists it, In it merged /\ shk y it) /\
+  sortedL merged.
+Proof. exact merge_spec. Qed.
+Print Assumptions C14_merge_keeps_greatest_position.
+
+(* (2) every group of different keys sharing a hash is reported: whenever two source items have the same hash and
+   different keys, the collision table afterwards has an entry for each of the two (hash, key) pairs; entries that
+   were there before are never lost (they may be replaced by a later position of the same pair). *)
+Theorem C14_merge_reports_collisions : forall srcs ct,
+  Forall sortedL (tagged srcs) ->
+  let ct' := snd (hint_merge srcs ct) in let all := List.concat (tagged srcs) in
+  (forall a, covers ct a -> covers ct' a) /\
+  (forall a b, In a all -> In b all -> hi_hash a = hi_hash b -> hi_key a <> hi_key b -> covers ct' a /\ covers ct' b).
+Proof. exact merge_reports_collisions. Qed.
+Print Assumptions C14_merge_reports_collisions.
+
+(* the hypothesis is what hint files are: sorted by (hash, key) with each pair at most once (C14_hint_roundtrip reads
+   them back in that order); tagging with one chunk id gives a list in merge order *)
+Theorem C14_sorted_file_is_in_merge_order : forall ck l, Sorted.StronglySorted hklt l -> sortedL (tag_chunk ck l).
+Proof. exact tag_sorted. Qed.
+Print Assumptions C14_sorted_file_is_in_merge_order.
 
 (* Finding F1 (repaired by a fix: commit): with the reader's logical offset NOT following the
    seek (the code before the repair), the lookup of an absent key above all stored hashes in a
